@@ -893,3 +893,34 @@ Example ex_explicit_exec :
   /\ r_verdict (run_file (cfgp false false) (b "/w") env0 (script ["tshelper echo hi"; "stdout hi"])) = Pass.
 Proof. vm_compute. repeat split; reflexivity. Qed.
 End ParamsExamples.
+
+(* ---- Params.Cmds is consulted only for names outside the standard set *)
+
+(* a key of scriptCmds is the built-in whatever Params.Cmds holds under that name ... *)
+Theorem builtin_shadows_custom cfg name k :
+  In name script_cmd_names -> ~ In name (c_main_cmds cfg) ->
+  assoc_kind (c_cmds cfg) name = Some k ->
+  lookup_cmd cfg name = Some (CBuiltin name).
+Proof. intros Hin Hm _. apply lookup_builtin; assumption. Qed.
+
+(* ... and so is a command registered through testscript.Main *)
+Theorem main_shadows_custom cfg name k :
+  In name (c_main_cmds cfg) -> assoc_kind (c_cmds cfg) name = Some k ->
+  lookup_cmd cfg name = Some (CMain name).
+Proof. intros Hin _. apply lookup_main. exact Hin. Qed.
+
+(* a custom command is reached exactly for the other names *)
+Theorem custom_reached_iff cfg name k :
+  lookup_cmd cfg name = Some (CCustom k) <->
+  ~ In name (c_main_cmds cfg) /\ ~ In name script_cmd_names /\ assoc_kind (c_cmds cfg) name = Some k.
+Proof.
+  unfold lookup_cmd. split.
+  - destruct (mem_bytes name (c_main_cmds cfg)) eqn:E1; [discriminate|].
+    destruct (mem_bytes name script_cmd_names) eqn:E2; [discriminate|].
+    destruct (assoc_kind (c_cmds cfg) name) eqn:E3; [|discriminate]. intros H. inversion H; subst.
+    repeat split; auto; intros Hin; apply mem_bytes_In in Hin; congruence.
+  - intros [H1 [H2 H3]].
+    destruct (mem_bytes name (c_main_cmds cfg)) eqn:E1; [apply mem_bytes_In in E1; tauto|].
+    destruct (mem_bytes name script_cmd_names) eqn:E2; [apply mem_bytes_In in E2; tauto|].
+    rewrite H3. reflexivity.
+Qed.
